@@ -20,12 +20,14 @@ import (
 	"net"
 	"net/http"
 	"net/http/httptest"
+	"strings"
 	"time"
 
 	"github.com/miekg/dns"
 	"github.com/semihalev/sdns/config"
 	"github.com/semihalev/sdns/internal/verif/srvh"
 	"github.com/semihalev/sdns/internal/verif/vlib"
+	"github.com/semihalev/sdns/middleware/cache"
 )
 
 var (
@@ -34,6 +36,8 @@ var (
 	udpConn *net.UDPConn
 	tcpConn net.Conn
 	sentSeq uint16 = 0x7000
+	// liveScripts: upstream response per (lower-case) question name
+	liveScripts = map[string]aR{}
 )
 
 func stopLive() {
@@ -52,9 +56,12 @@ func stopLive() {
 	}
 }
 
-func startLive(c deployCfg, withCache bool) {
+func startLive(c deployCfg, withCache bool, rateLimit int) {
 	stopLive()
 	hs := []string{"recovery", "edns"}
+	if rateLimit > 0 {
+		hs = append(hs, "ratelimit")
+	}
 	if withCache {
 		hs = append(hs, "cache")
 	}
@@ -64,8 +71,10 @@ func startLive(c deployCfg, withCache bool) {
 			cfg.CookieSecret = secretText
 		}
 		cfg.ECS.Enabled = c.ecs
+		cfg.ClientRateLimit = rateLimit
 	}})
 	liveCfg = c
+	liveScripts = map[string]aR{}
 	startDoQ()
 }
 
@@ -239,17 +248,34 @@ func summarize(reply []byte) string {
 		return "bytes=" + vlib.Hex(reply)
 	}
 	fl := binary.BigEndian.Uint16(reply[2:])
-	return fmt.Sprintf("len=%d rc=%d tc=%s", len(reply), fl&0xF, vlib.B(fl&0x0200 != 0))
+	return fmt.Sprintf("len=%d rc=%d tc=%s ad=%s", len(reply), fl&0xF, vlib.B(fl&0x0200 != 0), vlib.B(fl&0x0020 != 0))
 }
 
 func execSrv(f []string) vlib.Res {
 	switch f[1] {
 	case "new":
 		c := parseDeploy(f[2:6])
-		startLive(c, f[6] == "t")
+		rl := 0
+		if len(f) > 7 {
+			rl = vlib.Atoi(strings.TrimPrefix(f[7], "rl="))
+		}
+		startLive(c, f[6] == "t", rl)
 		return vlib.Res{Impl: "ok"}
 	case "stop":
 		stopLive()
+		return vlib.Res{Impl: "ok"}
+	case "seed":
+		// admit a response into the live cache as an earlier resolution left it
+		if live == nil || live.Cache == nil {
+			return vlib.Res{Impl: "no-cache"}
+		}
+		q, r := parseQ(f[2]), parseR(f[3])
+		req := new(dns.Msg)
+		if err := req.Unpack(rawQuery(q)); err != nil {
+			return vlib.Res{Impl: "undecodable"}
+		}
+		cache.VerifC06Seed(live.Cache, buildUpstream(r, req))
+		liveScripts[strings.ToLower(qnameOf(q.id))] = r
 		return vlib.Res{Impl: "ok"}
 	}
 	if live == nil {
@@ -271,9 +297,28 @@ func execSrv(f []string) vlib.Res {
 			return vlib.Res{Impl: "bad-dec-token"}
 		}
 	}
-	live.Stub.Set(func(req *dns.Msg) *dns.Msg { return buildUpstream(r, req) })
-	live.Stub.Panic = func(*dns.Msg) bool { return r.mode == 'p' }
+	// The upstream is scripted per question name: this op's R for its own
+	// name, and for any other name (an alias chase, a sub-query) the R a
+	// previous op registered for it.
+	curName := ""
+	if isQ {
+		curName = strings.ToLower(qnameOf(q.id))
+	}
+	live.Stub.Set(func(req *dns.Msg) *dns.Msg {
+		if len(req.Question) > 0 {
+			n := strings.ToLower(req.Question[0].Name)
+			if sc, ok := liveScripts[n]; ok && n != curName {
+				return buildUpstream(sc, req)
+			}
+		}
+		return buildUpstream(r, req)
+	})
+	if isQ && r.mode == 'e' {
+		liveScripts[curName] = r
+	}
+	live.Stub.Panic = func(*dns.Msg) bool { return r.mode == 'p' || r.mode == 'P' }
 	calls0 := live.Stub.Calls.Load()
+	chase0, skip0 := cache.VerifC06WireCounters()
 	remote, rip := remoteFor(entry)
 	ek := kindOf(entry)
 	var reply []byte
@@ -350,6 +395,11 @@ func execSrv(f []string) vlib.Res {
 		tags = ruleTags(q, r, ek.proto, nil)
 		if hit && reply != nil {
 			tags = appendTag(tags, "no-upstream-call")
+		}
+		if c1, s1 := cache.VerifC06WireCounters(); c1 > chase0 {
+			tags = appendTag(tags, "wire-chase-composed")
+		} else if s1 > skip0 {
+			tags = appendTag(tags, "wire-chase-declined")
 		}
 		if reply != nil && len(reply) > 3 && reply[2]&0x02 != 0 {
 			tags = appendTag(tags, "r-truncate")
